@@ -21,7 +21,8 @@ EXPLANATION = ('MultipleUTube.u_tube_volumes, CoaxialPipe.concentric_tube_volume
                '__init__/update_thermal_resistances; effective resistance an uninterpreted function of those stored values, decreasing in '
                'k_g). Asserted: the grout objective is strictly increasing in the trial conductivity; on bracketed paths the equivalent '
                'tube reports the original\'s effective resistance, its R_fp equals convective + pipe resistance, and its stored delta '
-               'circuit, k_g, grout.k and pipe.k are the solved values.')
+               'circuit, k_g, grout.k and pipe.k are the solved values; with concrete flow cases (convection coefficients from the real '
+               'correlations) R_fp of the equivalent tube equals convective + pipe resistance unconditionally.')
 OUTSIDE = ('NOT claimed: that the two root brackets ([k/100, 10k] for the pipe, [0.01, 7] for the grout) contain their roots - a numerical fact '
            'about the Gnielinski/Colebrook correlation and the multipole solution, which are not encodable; pygfunction enters the '
            'resistance-matching units only through the contract model stated under stubs. The 0.1 % figure is asserted as equality on '
